@@ -60,6 +60,7 @@ MUST_FIRE = {
 }
 
 GRID = [0, 0, 0.5, 1, 2, 4, 5, 8]
+EXC = ["OSError", "OSError", "ConnectionRefusedError", "TimeoutError", "asyncio.TimeoutError", "RuntimeError", "ValueError", "KeyError", "EOFError"]
 LIFE = [None, None, 0, 0.5, 1, 2, 4, 5, 8, 60]
 
 
@@ -69,7 +70,7 @@ def _spec(rng):
     if r < 0.5:
         return {"o": "ok", "d": rng.choice(GRID), "life": rng.choice(LIFE), "y": y}
     if r < 0.93:
-        return {"o": "fail", "d": rng.choice(GRID), "y": y}
+        return {"o": "fail", "d": rng.choice(GRID), "y": y, "exc": rng.choice(EXC)}
     return {"o": "hang", "d": 0}
 
 
